@@ -106,10 +106,17 @@ func NewPMT(pmtBytes []byte) (PMT, error) {
 }
 
 func (p *pmt) parseTables(pmtBytes []byte) error {
+	if len(pmtBytes) < 1 || len(pmtBytes) < 1+int(PointerField(pmtBytes)) {
+		return gots.ErrShortPayload
+	}
 	sectionBytes := pmtBytes[1+PointerField(pmtBytes):]
 
 	for len(sectionBytes) > 2 && sectionBytes[0] != 0xFF {
 		tableLength := sectionLength(sectionBytes)
+		if len(sectionBytes) < 3+int(tableLength) {
+			// the section is cut short
+			return gots.ErrShortPayload
+		}
 
 		if tableID(sectionBytes) == 0x2 {
 			err := p.parsePMTSection(sectionBytes[0 : 3+tableLength])
